@@ -15,6 +15,11 @@ From GM Require Import Base.Res Model.SystemRec Corr.CheckC11.
 Import ListNotations.
 """
 
+HEADER_D = """From Coq Require Import List.
+From GM Require Import Base.Res Model.SystemRec Proofs.SystemRecCheck.
+Import ListNotations.
+"""
+
 RULE = ("domain systems: every sequence of <= 5 (quick) / <= 6 (thorough) molecules over the species A (one residue), "
         "B (two different residues), C (residues P,Q,P), D (two identical consecutive residues) and the unloaded solvent W, "
         "each with every permutation of every sub-list of the four topologies (65 loading orders, absent species are refused "
@@ -31,6 +36,7 @@ FIXED = [
     {"name": "MD", "residues": [["DD", ["d1"]], ["DD", ["d1"]]]},
 ]
 SOLVENT = ["W", ["w1"]]
+MAX_REPORTS = 10
 ERRCODE = [(OSError, 1), (ValueError, 2), (IndexError, 3), (KeyError, 4)]
 
 
@@ -203,6 +209,26 @@ def coq_obs(obs, I):
     return "(mkObs %s %s %d %s %s %s)" % (tabl, it, obs["len"], comp, items, sl)
 
 
+def coq_domain_case(spec, built, I):
+    """chk_domain: the generated file satisfies the hypothesis `domain` of C11_exact (decided inside Coq by the
+    reflective checker; the ground truth gives the runs, the kinds are read off the model's view)"""
+    present = sorted(set(s for s, _, _ in built["truth"] if s is not None))
+    reidx = {s: k for k, s in enumerate(present)}
+    tops = [spec["tops"][spec["top_species"].index(s)] for s in present]
+    hs = []
+    for s, _, _ in built["truth"]:
+        if s is None:
+            hs.append(None)
+        elif hs and hs[-1] is not None and hs[-1][0] == reidx[s]:
+            hs[-1][1] += 1
+        else:
+            hs.append([reidx[s], 0])
+    htxt = "[" + ";".join("HOther" if h is None else "HInst %d %d" % (h[0], h[1]) for h in hs) + "]"
+    ftxt = "[" + ";".join("(%d,%s)" % (I(("r", rn)), coq_nats(I(("a", a)) for a in names))
+                          for _, rn, names in built["residues"]) + "]"
+    return "chk_domain %s [%s] %s" % (ftxt, ";".join(coq_top(t, I) for t in tops), htxt)
+
+
 # ------------------------------------------------------------------ S oracle (property text)
 def read_gro_raw(path):
     """independent fixed-column reading of the coordinate file: [(resid, resname, name, atomid, (x,y,z))]"""
@@ -342,6 +368,8 @@ def run_system(job):
         gtxt = "[" + ";\n    ".join("([%s],%s)" % (";".join("(%s,%s)" % (coq_nats(o), coq_nats(l)) for o, l in ols), key)
                                     for key, ols in groups.items()) + "]"
         out["case"] = "chk_sys %s\n    [%s]\n    %s" % (coq_file(built, I), ";".join(coq_top(t, I) for t in spec["tops"]), gtxt)
+        if job["domain"]:
+            out["domain_case"] = coq_domain_case(spec, built, I)
         # the constructor with all topologies at once, in the first full order
         if job.get("ctor"):
             from gaddlemaps.components import System
@@ -472,7 +500,7 @@ def corpus(ctx):
         S["corpus"] += r["sessions"]
         for order, bad in r["fails"]:
             ctx.violation("C11 on a committed witness: " + "; ".join(bad[:4]),
-                          {"kind": "fixed", "seq": list(c["seq"]), "order": order}, key="recognition")
+                          {"kind": "fixed", "seq": list(c["seq"]), "orders": [order], "domain": True}, key="recognition")
 
 
 def make_jobs(ctx):
@@ -485,7 +513,14 @@ def make_jobs(ctx):
         for seq in itertools.product(range(5), repeat=n):
             # System[i] for every i and slices: on 3 full permutations and 3 other orders per system
             vo = [int(x) for x in rs.randint(41, 65, size=3)] + [int(x) for x in rs.randint(0, 41, size=3)]
-            jobs.append({"spec": fixed_spec(seq), "orders": orders, "domain": True, "kind": "fixed", "seq": list(seq),
+            ords = orders
+            if ctx.quick and n == maxlen:
+                # quick tier, longest sequences: the 24 full permutations and 12 of the 41 shorter orders
+                # (the thorough tier runs all 65 on every sequence)
+                keep = sorted(set(int(x) for x in rs.choice(41, size=12, replace=False)))
+                ords = [orders[k] for k in keep] + orders[41:]
+                vo = [int(x) for x in rs.randint(12, 36, size=3)] + [int(x) for x in rs.randint(0, 12, size=3)]
+            jobs.append({"spec": fixed_spec(seq), "orders": ords, "domain": True, "kind": "fixed", "seq": list(seq),
                          "seed": int(rs.randint(0, 2 ** 31)), "full_slices": False, "view_orders": vo})
     # exhaustive slices on a few systems
     for _ in range(ctx.n(6, 40)):
@@ -541,10 +576,16 @@ def correspondence(ctx):
             ctx.count((job.get("seq"), job["seed"], key), nontrivial=len(key[0]) > 0)
         for order, bad in r["fails"]:
             nfail += 1
-            ctx.violation("C11: " + "; ".join(bad[:4]), job_replay(job, order), key="recognition")
-    ctx.sample(meta[7])
-    ctx.sample(meta[len(meta) // 2])
-    ctx.sample({k: v for k, v in meta[-1].items() if k != "spec"})
+            if nfail <= MAX_REPORTS:      # one replay file per failing input is enough; the count is in the evidence
+                ctx.violation("C11: " + "; ".join(bad[:4]), job_replay(job, order), key="recognition")
+    for m in (meta[7], meta[len(meta) // 2], meta[-1]):
+        smp = {k: v for k, v in m.items() if k not in ("spec", "orders")}
+        smp["orders"] = m["orders"][:3]
+        smp["n_orders"] = len(m["orders"])
+        if "spec" in m:
+            smp["segments"] = m["spec"]["segments"][:12]
+            smp["species"] = [sp["name"] + ":" + "/".join(r[0] for r in sp["residues"]) for sp in m["spec"]["species"]]
+        ctx.sample(smp)
     codes, log = lib.run_coq_cases(ctx.cid, "K", HEADER, cases, shard=ctx.n(60, 120), timeout=1500)
     K = ctx.cov["K"]
     K["cases"] = len(cases)
@@ -559,6 +600,16 @@ def correspondence(ctx):
     K["disagree"] = sum(1 for c in codes.values() if c != 0)
     K["agree"] = len(cases) - len(codes)
     dis = [dict(meta[i], code=c) for i, c in sorted(codes.items())]
+    # every generated domain file satisfies the hypothesis of C11_exact (reflective checker evaluated in Coq)
+    dcases = [(job, r["domain_case"]) for job, r in zip(jobs, results) if "domain_case" in r]
+    dcodes, dlog = lib.run_coq_cases(ctx.cid, "KD", HEADER_D, [c for _, c in dcases], shard=ctx.n(300, 1500), timeout=1500)
+    K["domain_hypothesis_cases"] = len(dcases)
+    if dcodes is None:
+        K["error"] = dlog
+        return dis + [{"error": "coqc failed on the domain-hypothesis cases", "log": dlog[-1500:]}]
+    K["domain_hypothesis_not_met"] = len(dcodes)
+    dis += [dict(job_replay(dcases[i][0]), code=c, what="generated file does not satisfy `domain`")
+            for i, c in sorted(dcodes.items())]
     for d in dis[:20]:
         if d.get("domain"):
             bad = replay_obj(d)
@@ -600,7 +651,8 @@ def oracle(ctx, scale):
             ctx.count(("S", job["seed"], key))
         for order, bad in r["fails"]:
             fails += 1
-            ctx.violation("C11: " + "; ".join(bad[:4]), job_replay(job, order), key="recognition")
+            if fails <= MAX_REPORTS:
+                ctx.violation("C11: " + "; ".join(bad[:4]), job_replay(job, order), key="recognition")
     S["sessions_x%d" % scale] = sum(r["sessions"] for r in results)
     S["failures"] = S.get("failures", 0) + fails
 
